@@ -31,8 +31,10 @@ ID = 'C17'
 HASHSEED_IS_VIOLATION = True
 
 TIERS = {
-    'quick': {'runs': 2400, 'replica_runs': 480, 'hash_seeds': [1, 4242, 99], 'timeout_s': 1500, 'shrink_s': 60},
+    'quick': {'runs': 2400, 'replica_runs': 480, 'hash_seeds': [1, 4242, 99], 'timeout_s': 1500, 'shrink_s': 60,
+              'step_budget': 250_000_000, 'stall_s': 150},
     'thorough': {'runs': 60000, 'replica_runs': 8000, 'hash_seeds': [1, 2, 3, 7, 99, 4242, 31337, 2**31],
+                 'step_budget': 800_000_000, 'stall_s': 400,
                  'timeout_s': 12000, 'shrink_s': 180},
 }
 
@@ -573,6 +575,14 @@ def _execute(trace, cfg, clients, res):
                         out = digest.canon(run_op(world, op, local))
                     finally:
                         sys.setrecursionlimit(old_limit)
+                except sched.StepCapExceeded:
+                    # bounded liveness of the threaded phase: the sequential reference of this very script returned
+                    results[op['id']] = ['STEP-CAP']
+                    if not any(v.oracle == 'termination' for v in res.violations):
+                        res.violate('termination', 'threaded-phase-exceeded-step-cap', cap=S.step_cap, client=ci, op=op,
+                                    note='the sequential execution of the same scripts returned; the largest threaded '
+                                         'phase on the unchanged tree needs about 1 % of the cap')
+                    break
                 except sched.SimCancelled as e:
                     S.rearm()
                     res.hit('fault.cancel')
@@ -640,9 +650,9 @@ def _execute(trace, cfg, clients, res):
     # ---- oracle 1: refinement against the sequential execution -----------------------------------------------
     for ci, ops in enumerate(clients):
         for op in ops:
-            got = results.get(op['id'])
+            got = results.get(op['id'], ['NOT-RUN'] if S.aborted else None)
             res.event(ci, op['id'], op['op'], digest.sha(got))
-            if got in (['CANCELLED'], ['RECURSION']) or (isinstance(got, str) and got.startswith('not-judged')):
+            if got in (['CANCELLED'], ['RECURSION'], ['STEP-CAP'], ['NOT-RUN']) or (isinstance(got, str) and got.startswith('not-judged')):
                 continue
             if got != reference[op['id']]:
                 res.violate('refinement', 'result-differs-from-sequential-execution', client=ci, op=op,
